@@ -13,6 +13,18 @@ pub fn flatten_primitive_array_values(values: Vec<Primitive>) -> IterableKind {
     if first.is_none() {
         return IterableKind::Anys(vec![]);
     }
+    //rows whose elements have different kinds (integers in one row, decimals in
+    //another) are still rows: keep the nesting so that M[i][j] and iteration work
+    if values.iter().all(|v| matches!(v, Primitive::Iterable(_))) {
+        let values = values
+            .into_iter()
+            .map(|v| match v {
+                Primitive::Iterable(b) => b,
+                _ => unreachable!(),
+            })
+            .collect();
+        return IterableKind::Iterables(values);
+    }
     let first_kind = first.unwrap().get_type();
     let all_equal_type = values.iter().all(|v| v.get_type() == first_kind);
     if !all_equal_type {
